@@ -43,6 +43,11 @@ class C16(Prop):
         q = tier == "quick"
         for tau in range(2, 7 if q else 8):
             yield {"kind": "clique", "tau": tau}
+        # neighbour values that repeat (same value set, different multiplicities), evaluated one after the other in this process
+        for tau, pats in ((3, [[0, 0]]), (4, [[0, 0, 1], [0, 1, 1], [1, 1, 1], [1, 0, 1]]),
+                          (5, [[0, 1, 2, 0], [2, 1, 2, 0], [1, 1, 2, 0], [0, 0, 0, 0], [0, 1, 0, 1]])):
+            for hs in pats:
+                yield {"kind": "clique", "tau": tau, "hs": hs}
         yield {"kind": "clique", "tau": 1}
         for n in range(3, 11 if q else 13):
             yield {"kind": "cycle", "n": n}
@@ -52,6 +57,10 @@ class C16(Prop):
             yield {"kind": "QQ", "n": n}
 
     def gen(self, rng, i, tier):
+        if rng.random() < 0.4:
+            tau = rng.randint(3, 5 if tier == "quick" else 6)
+            pool = rng.randint(1, 3)
+            return {"kind": "clique", "tau": tau, "hs": [rng.randrange(pool) for _ in range(tau - 1)]}
         n = rng.randint(2, 6)
         nodes, edges = mp.random_connected_graph(rng, n, rng.choice([0.2, 0.5, 0.8]))
         if rng.random() < 0.3 and len(edges) > 1:
@@ -70,7 +79,7 @@ class C16(Prop):
         k = case["kind"]
         if k == "clique":
             tau = case["tau"]
-            Hs = [mp.uvar(i) for i in range(tau - 1)]
+            Hs = [mp.uvar(i) for i in case.get("hs", range(tau - 1))]
             return {"poly": mp.poly_canon(clique_equation(tau, mp.pvar(), Hs))}
         if k == "cycle":
             return {"poly": mp.poly_canon(chordless_cycle_equation(case["n"], mp.uvar(0), mp.pvar()))}
@@ -122,7 +131,8 @@ class C16(Prop):
                 return f
             nodes = list(range(tau))
             edges = [(a, b) for a in range(tau) for b in range(a + 1, tau)]
-            want = mp.exact_expectation(nodes, edges, 0, u_of=lambda v: mp.uvar(v - 1))
+            hs = case.get("hs", list(range(tau - 1)))
+            want = mp.exact_expectation(nodes, edges, 0, u_of=lambda v: mp.uvar(hs[v - 1]))
             if obs["poly"] != mp.poly_canon(want):
                 f.append(f"clique: clique equation for tau={tau} differs from the exact expectation on K_tau as a polynomial")
         elif k == "cycle":
